@@ -498,3 +498,45 @@ def legacy(ctx: Ctx):
         want,
         "legacy implementation obeys the same base rule as the matrix measure: effective base = (WEIGHTED column margin)^2 / squared base when squared weights exist, else the unweighted base",
     )
+    # the same rule case by case (NORM after specialising every test of `columns_squared_base is None`): robust against the
+    # base selection being moved into a helper or merged into one branch-free formula
+    import copy as _copy
+
+    SQ = "self._slice.columns_squared_base"
+    full = expand(ctx.repo, ci, "t_stats")
+
+    class _Case(ast.NodeTransformer):
+        def __init__(self, absent: bool):
+            self.absent = absent
+
+        def visit_IfExp(self, n):
+            t = n.test
+            neg = False
+            while isinstance(t, ast.UnaryOp) and isinstance(t.op, ast.Not):
+                t, neg = t.operand, not neg
+            if isinstance(t, ast.Compare) and len(t.ops) == 1 and u(t.left) == SQ and u(t.comparators[0]) == "None" and isinstance(t.ops[0], (ast.Is, ast.IsNot)):
+                truth = (self.absent if isinstance(t.ops[0], ast.Is) else not self.absent) != neg
+                return self.visit(n.body if truth else n.orelse)
+            return self.generic_visit(n)
+
+    for absent, base, label in ((False, f"self._slice.columns_margin ** 2 / {SQ}", "squared weights supplied"), (True, "self._slice.columns_base", "no squared weights")):
+        case = _Case(absent).visit(_copy.deepcopy(full))
+        if absent and SQ in u(case):
+            ctx.undecided("legacy-effective-base.cases", where + f" [{label}]", "the absent squared base is still read on this path", base)
+            continue
+        var_c = f"({p} * (1.0 - {p}) / ({base}))"
+        want_c = f"({p} - REF({p})) / np.sqrt({var_c} + REF({var_c}))"
+
+        class _Ref(ast.NodeTransformer):
+            # X[:, [self._col_idx]] (the reference column, broadcast) as an uninterpreted function of X
+            def visit_Subscript(self, n):
+                n = self.generic_visit(n)
+                sl = n.slice
+                if isinstance(sl, ast.Tuple) and len(sl.elts) == 2 and isinstance(sl.elts[0], ast.Slice) and u(sl.elts[1]).replace(" ", "") == "[self._col_idx]":
+                    return ast.Call(func=ast.Name(id="REF", ctx=ast.Load()), args=[n.value], keywords=[])
+                return n
+
+        case = ast.fix_missing_locations(_Ref().visit(case))
+        v, cnf, snf, _ = equal(case, want_c)
+        ctx.ob("legacy-effective-base.cases", where + f" [{label}]", cnf, snf, v,
+               "n = (sum w)^2 / sum w^2 when squared weights are supplied, the UNWEIGHTED column base otherwise (a weighted cube without squared weights must not use its weighted N)")
